@@ -166,6 +166,22 @@ def r3_parser_binding(ctx: Ctx) -> None:
 
 
 
+def r4_only_the_condition_is_guarded(ctx: Ctx) -> None:
+    """`a condition over an undefined name counts as false` covers the condition only: the selected block is expanded outside the
+    handler, so an undefined name inside it is an error, as in the hand-expanded program (shared with C14.R8)"""
+    from .c14 import recovery_scope
+
+    recovery_scope(ctx)
+
+
+def r5_named_scope_in_iteration(ctx: Ctx) -> None:
+    """`each iteration in its own scope`: a named scope inside a loop body exports into the scope that directly encloses it (the
+    iteration's), so `s.v` read in one iteration is that iteration's (shared with C08.R4)"""
+    from .c08 import r4_export
+
+    r4_export(ctx)
+
+
 def rb_binding_agreement(ctx: Ctx) -> None:
     from ..ownership import binding_agreement
 
@@ -179,4 +195,4 @@ def rm_no_process_lifetime_results(ctx: Ctx) -> None:
     state_rule(ctx)
 
 
-RULES = [r1_if, r2_for, r3_parser_binding, rb_binding_agreement, rm_no_process_lifetime_results]
+RULES = [r1_if, r2_for, r3_parser_binding, r4_only_the_condition_is_guarded, r5_named_scope_in_iteration, rb_binding_agreement, rm_no_process_lifetime_results]
